@@ -140,9 +140,9 @@ def judge(c, rec, Mismatch, case):
             # great-circle chord of the stay in the cell (wc, what the code measures): the
             # difference between the two readings is part of the tolerance
             tau = 2.0 / M + 1e-4 + 0.005 * max(g, w) + abs(w - wc)
-            if 0.0 < seg_len < 1e-2:          # coordinate quantisation (about 3e-9 m)
+            if seg_len > 0.0:                 # coordinate quantisation (about 3e-9 m)
                 tau += min(0.3, 8 * 3e-9 / seg_len)
-                micro = True
+                micro = seg_len < 1e-2
             tau += cnoise
             rec.count('cell_share_comparisons')
             if abs(g - w) > tau and (worst is None or abs(g - w) > worst[0]):
@@ -171,7 +171,7 @@ def judge(c, rec, Mismatch, case):
         # ---- path order -----------------------------------------------------------------------------
         # cells whose share is within what the coordinates determine at all (see
         # crossing_noise, micro segments) may legitimately be missing from the code's answer
-        slack = cnoise + (min(0.3, 8 * 3e-9 / seg_len) if 0.0 < seg_len < 1e-2 else 0.0)
+        slack = cnoise + (min(0.3, 8 * 3e-9 / seg_len) if seg_len > 0.0 else 0.0)
         big = [cell for cell in order if shares[cell] > 4.0 / M + 2e-4 + slack]
         seq = [cell for cell in got_order if cell in set(big)]
         dedup = [x for i, x in enumerate(seq) if i == 0 or seq[i - 1] != x]
